@@ -572,6 +572,18 @@ def work_C05(run, rng, budget):
         if err is not None:
             continue  # reader problems are C07/C08's business
         one(g, "reader:" + m.family, {"molfile": text})
+    # D / T atoms in files with explicit zero entries (V2000: also zero M  ISO entries naming the D / T atom itself)
+    for k in range(8 * budget):
+        m = G.gen_mol(rng, family="charged_dt")
+        sizes(run, m)
+        if k % 2:
+            text, info = RD.render_v2000(m, rng, {"zeros": True, "dt": True})
+        else:
+            text, info = RD.render_v3000(m, rng, {"zeros": True, "dt": True, "star": False})
+        g, err = safe(graph_from_molfile_text, text)
+        run.stats["via_reader_dt_zeros"] += 1
+        if err is None:
+            one(g, "reader:dt_zeros", {"molfile": text})
     # graphs the parser produces
     for _ in range(30 * budget):
         s, spec = TG.gen_sentence(rng)
